@@ -57,11 +57,14 @@ def sweep(db, dbname, proj, events, rng, thorough, rep, light=False):
     for qt, units in byqt.items():
         base = units[0]
         vals = {}
+        near = {}
         zero_of = {}  # (u, w) -> |value in w of zero u|
         for u in units:
             z = conv(qt, base, u, 0.0)
             # values at and next to the unit's own image of the base zero (affine offsets)
-            vals[u] = sorted(set(VALUES + ([] if z == 0 else [z, z - 1.0, z + 1.0, -z])))
+            # ... and amounts a few hundred ulps apart right at that image (where a "clean-up" of tiny results would merge distinct amounts)
+            near[u] = [] if z == 0 else [z * (1.0 + k_ * 1e-13) for k_ in (-3, -2, -1, 1, 2, 3)]
+            vals[u] = sorted(set(VALUES + ([] if z == 0 else [z, z - 1.0, z + 1.0, -z]) + near[u]))
         has_offset = any(len(vals[u_]) > len(VALUES) for u_ in units)
         pairs = [(u, w) for u in units for w in units if not light or u == w or u == base or w == base]
         cats_by_qt, dcat = {}, {}
@@ -129,6 +132,10 @@ def sweep(db, dbname, proj, events, rng, thorough, rep, light=False):
                 worst_rt = max(worst_rt, ppt(abs(rt - x), max(abs(x), s0)))
             # strictly increasing: no two amounts are ever swapped, and the map is not constant
             inversions = sum(1 for i in range(len(ys) - 1) if ys[i] > ys[i + 1])
+            # (amounts 1e-13 of the offset apart are hundreds of ulps apart: they must stay apart and in order)
+            if near[u] and u != w:
+                nys = [conv(qt, u, w, x_) for x_ in sorted(near[u] + [conv(qt, base, u, 0.0)])]
+                inversions += sum(1 for i in range(len(nys) - 1) if nys[i] >= nys[i + 1])
             spans = ys[0] < ys[-1]
             # path independence u -> v -> w  vs  u -> w
             if light:
@@ -179,6 +186,13 @@ def sweep(db, dbname, proj, events, rng, thorough, rep, light=False):
                                  [x_ for p_ in Array(c_, list(pairs_), u).GetValues(w) for x_ in p_],
                                  [x_ for p_ in Array(c_, tuple(pairs_), u).GetValues(w) for x_ in p_]]
                         wants_ = [ys, ys, want_, want_]
+                        # the public converter of fraction values with a quantity object of the type: the amount given in u comes back in w
+                        from barril.basic.fraction import FractionValue
+                        from barril.units import FractionScalar
+                        qb_ = ObtainQuantity(base, c_)
+                        fv_ = [float(FractionScalar.ConvertFractionValue(FractionValue(number=x_), qb_, u, w)) for x_ in vals_u[1::3]]
+                        gots_.append(fv_)
+                        wants_.append(ys[1::3])
                         for g_, w_ in zip(gots_, wants_):
                             if len(g_) != len(w_):
                                 same_exact = False
